@@ -2731,16 +2731,34 @@ def run(chk):
         if len(tot) != 1:
             raise AnchorMissing(f"the one assignment of self.{total} in start_benchmark")
         tv = source.inline_node(tot[0].value, {k: v for k, v in local_defs(sb).items() if not any(isinstance(x, ast.Call) and last_attr(x.func) != "len" for x in ast.walk(v))})
-        jp_reads = [x for x in ast.walk(tv) if isinstance(x, ast.Attribute) and x.attr == "join_points"]
-        if not jp_reads:
-            chk.ob("O1.3", "finished: step == len(join_points) - 1", False, tot[0], f"self.{total} = {u(tv)} is not derived from the allocator's join points")
-        else:
-            class _JP(ast.NodeTransformer):
-                def visit_Attribute(self, n):
-                    return ast.copy_location(ast.Name(id="JPS", ctx=ast.Load()), n) if n.attr == "join_points" else self.generic_visit(n)
+        # the number of steps may be taken from any of the allocator's views of the same matrix (join_points: one per barrier column; tasks_per_joinpoint: one entry per column
+        # behind the first, EMPTY for an element left without tasks): driver attributes assigned once in start_benchmark are looked through, the views are replaced by model values
+        # for 3 join points / 2 elements, the second of them empty, and the expression is evaluated. An expression that reads none of the views is "not recognised", not a finding.
+        _views = {"join_points": ("JPS", ["j0", "j1", "j2"]), "tasks_per_joinpoint": ("TPJ", [{"t0", "t1"}, set()])}
+        _sb_attrs = {}
+        for n_ in walk_body(sb):
+            if isinstance(n_, ast.Assign) and len(n_.targets) == 1 and is_self_attr(n_.targets[0]) and n_.targets[0].attr != total:
+                _sb_attrs.setdefault(n_.targets[0].attr, []).append(n_.value)
 
+        class _Through(ast.NodeTransformer):
+            def __init__(self, depth=0):
+                self.depth = depth
+
+            def visit_Attribute(self, n):
+                if n.attr in _views:
+                    return ast.copy_location(ast.Name(id=_views[n.attr][0], ctx=ast.Load()), n)
+                if is_self_attr(n) and isinstance(n.ctx, ast.Load) and len(_sb_attrs.get(n.attr, [])) == 1 and self.depth < 3:
+                    return _Through(self.depth + 1).visit(source.clone(source.inline_node(_sb_attrs[n.attr][0], {k: v for k, v in local_defs(sb).items() if not any(
+                        isinstance(x, ast.Call) and last_attr(x.func) != "len" for x in ast.walk(v))})))
+                return self.generic_visit(n)
+
+        tv_m = ast.fix_missing_locations(_Through().visit(source.clone(tv)))
+        jp_reads = [x for x in ast.walk(tv_m) if isinstance(x, ast.Name) and x.id in ("JPS", "TPJ")]
+        if not jp_reads:
+            chk.unknown("O1.3", f"finished: step == len(join_points) - 1: self.{total} = {u(tv)} reads none of the allocator's views of the join points", tot[0])
+        else:
             try:
-                tval = _me.ev(ast.fix_missing_locations(_JP().visit(source.clone(tv))), {"JPS": ["j0", "j1", "j2"]})
+                tval = _me.ev(tv_m, {v_[0]: v_[1] for v_ in _views.values()})
             except _me.CannotEval as x:
                 raise AnchorMissing(f"start_benchmark: `{u(tv)}` cannot be evaluated: {x}")
             ok = shape == [False, False, True] and tval == 2
@@ -3605,6 +3623,7 @@ def run(chk):
 
 from sa.selftest import V  # noqa: E402
 
+_STEPS_OLD = "        self.number_of_steps = len(allocator.join_points) - 1\n        self.tasks_per_join_point = allocator.tasks_per_joinpoint\n"
 VARIANTS = [
     V("F20: 'any' arrival selected by the shared join point only", "break", _D, "if a.client_id in a.task.any_task_completes_parent]", "if a.task.any_task_completes_parent]", "O1.4"),
     V("F20 fix written with a set", "keep", _D, "if a.client_id in a.task.any_task_completes_parent]", "if a.client_id in set(a.task.any_task_completes_parent)]", "O1.4"),
@@ -3991,4 +4010,10 @@ VARIANTS += [
     V("s5 keep: the rows of a worker are collected from the matrix read off a local, clients in sorted order", "keep", _D, "                    for client_id in clients:\n" + _ROW_ADD,
       "                    matrix = self.allocations\n                    for client_id in sorted(clients):\n                        client_allocations.add(client_id, matrix[client_id])\n"),
     V("s5 keep: workers without clients are skipped by truth of the client list", "keep", _D, "                if len(clients) > 0:\n", "                if clients:\n"),
+    V("number of steps taken from the per-step task table (one entry per join point behind the first)", "keep", _D, _STEPS_OLD,
+      "        self.tasks_per_join_point = allocator.tasks_per_joinpoint\n        self.number_of_steps = len(self.tasks_per_join_point)\n"),
+    V("number of steps counts the non-empty entries of the per-step task table only (seed C02-m14)", "break", _D, _STEPS_OLD,
+      "        self.tasks_per_join_point = allocator.tasks_per_joinpoint\n        self.number_of_steps = len([tasks for tasks in self.tasks_per_join_point if len(tasks) > 0])\n", "O1.3"),
+    V("number of steps taken from the per-step task table, one too few", "break", _D, _STEPS_OLD,
+      "        self.tasks_per_join_point = allocator.tasks_per_joinpoint\n        self.number_of_steps = len(self.tasks_per_join_point) - 1\n", "O1.3"),
 ]
